@@ -299,6 +299,8 @@ impl Ctx {
 	/// run one op on the real graph; the answer line
 	fn apply(&self, g: &Graph, op: &Op) -> String {
 		let res = |r: Result<(), LightningError>| match r { Ok(()) => "ok".to_string(), Err(e) => err_kind(&e) };
+		// signed handlers: Ok(true) = forward to peers
+		let resr = |r: Result<bool, LightningError>| match r { Ok(true) => "ok".to_string(), Ok(false) => "ok-norelay".to_string(), Err(e) => err_kind(&e) };
 		match op {
 			Op::Ca { scid, n1, n2, same_btc, chain_ok, verify, sigs, utxo } => {
 				let msg = self.build_ca(*scid, *n1, *n2, *same_btc, *chain_ok, *sigs);
@@ -310,7 +312,7 @@ impl Ctx {
 				let lookup: Option<&Stub> = if *utxo == Utxo::NoLookup { None } else { Some(&stub) };
 				if *verify {
 					let sync = P2PGossipSync::new(g, lookup, &LOGGER);
-					res(sync.handle_channel_announcement(None, &msg).map(|_| ()))
+					resr(sync.handle_channel_announcement(None, &msg))
 				} else { res(g.update_channel_from_unsigned_announcement(&msg.contents, &lookup)) }
 			},
 			Op::Cp { scid, cap, recv, n1, n2 } => res(g.add_channel_from_partial_announcement(*scid, *cap, *recv, ChannelFeatures::empty(), self.id_of(*n1), self.id_of(*n2))),
@@ -318,14 +320,14 @@ impl Ctx {
 				let msg = self.build_cu(op);
 				if *verify {
 					let sync = P2PGossipSync::new(g, None::<&Stub>, &LOGGER);
-					res(sync.handle_channel_update(None, &msg).map(|_| ()))
+					resr(sync.handle_channel_update(None, &msg).map(|n| n.is_some()))
 				} else { res(g.update_channel_unsigned(&msg.contents).map(|_| ())) }
 			},
 			Op::Na { node, ts, payload, verify, sig_ok } => {
 				let msg = self.build_na(*node, *ts, *payload, *sig_ok);
 				if *verify {
 					let sync = P2PGossipSync::new(g, None::<&Stub>, &LOGGER);
-					res(sync.handle_node_announcement(None, &msg).map(|_| ()))
+					resr(sync.handle_node_announcement(None, &msg))
 				} else { res(g.update_node_from_unsigned_announcement(&msg.contents)) }
 			},
 			Op::Fc { scid } => { g.handle_network_update(&NetworkUpdate::ChannelFailure { short_channel_id: *scid, is_permanent: true }); "done".into() },
@@ -363,6 +365,8 @@ impl Ctx {
 	/// run one op on the real graph behind one P2PGossipSync whose UtxoLookup is scripted (async phases)
 	fn apply_env(&self, env: &AsyncEnv, op: &Op) -> String {
 		let res = |r: Result<(), LightningError>| match r { Ok(()) => "ok".to_string(), Err(e) => err_kind(&e) };
+		// signed handlers: Ok(true) = forward to peers
+		let resr = |r: Result<bool, LightningError>| match r { Ok(true) => "ok".to_string(), Ok(false) => "ok-norelay".to_string(), Err(e) => err_kind(&e) };
 		let g = env.g;
 		match op {
 			Op::Ca { scid, n1, n2, same_btc, chain_ok, verify, sigs, utxo } => {
@@ -371,17 +375,17 @@ impl Ctx {
 					return if *verify { res(g.update_channel_from_announcement(&msg, &None::<&Scripted>)) } else { res(g.update_channel_from_unsigned_announcement(&msg.contents, &None::<&Scripted>)) };
 				}
 				*env.look.next.lock().unwrap() = Some(match utxo { Utxo::Async(fid) => Mode::Async(*fid), u => if env.early { Mode::Early(self.lookup_result(u)) } else { Mode::Sync(self.lookup_result(u)) } });
-				let r = if *verify { res(env.sync.handle_channel_announcement(None, &msg).map(|_| ())) } else { res(g.update_channel_from_unsigned_announcement(&msg.contents, &Some(&*env.look))) };
+				let r = if *verify { resr(env.sync.handle_channel_announcement(None, &msg)) } else { res(g.update_channel_from_unsigned_announcement(&msg.contents, &Some(&*env.look))) };
 				*env.look.next.lock().unwrap() = None; // the library does not reach the lookup when an earlier check refuses the message
 				r
 			},
 			Op::Cu { verify, .. } => {
 				let msg = self.build_cu(op);
-				if *verify { res(env.sync.handle_channel_update(None, &msg).map(|_| ())) } else { res(g.update_channel_unsigned(&msg.contents).map(|_| ())) }
+				if *verify { resr(env.sync.handle_channel_update(None, &msg).map(|n| n.is_some())) } else { res(g.update_channel_unsigned(&msg.contents).map(|_| ())) }
 			},
 			Op::Na { node, ts, payload, verify, sig_ok } => {
 				let msg = self.build_na(*node, *ts, *payload, *sig_ok);
-				if *verify { res(env.sync.handle_node_announcement(None, &msg).map(|_| ())) } else { res(g.update_node_from_unsigned_announcement(&msg.contents)) }
+				if *verify { resr(env.sync.handle_node_announcement(None, &msg)) } else { res(g.update_node_from_unsigned_announcement(&msg.contents)) }
 			},
 			Op::Rs { fid, res } => {
 				let f = env.look.futures.lock().unwrap().get(fid).cloned();
@@ -601,7 +605,7 @@ fn wrongly_signed(ctx: &Ctx, g: &Graph, op: &Op) -> bool {
 	}
 }
 
-struct Runner<'a> { ctx: &'a Ctx, rec: &'a mut Rec, /// violations of the stored-signature oracle already reported (each is reported once)
+struct Runner<'a> { ctx: &'a Ctx, rec: &'a mut Rec, n_dump: u64, /// violations of the stored-signature oracle already reported (each is reported once)
 	last_bad: Vec<String> }
 impl<'a> Runner<'a> {
 	/// execute + record one op, running the per-op oracles
@@ -667,7 +671,44 @@ impl<'a> Runner<'a> {
 		let d_rec = self.ctx.dump_rec(g, tomb);
 		if tomb { let bad = self.ctx.stored_sigs_bad(g); for v in bad.iter() { if !self.last_bad.contains(v) { self.rec.oracle_fail(format!("WRONGLY SIGNED GOSSIP IN THE GRAPH: {}; graph: {}", v, d)); } } self.last_bad = bad; }
 		self.rec.case(if tomb { "dump" } else { "dumpp" }, &d_rec, "dump", false);
+		self.n_dump += 1;
+		if tomb && self.n_dump % 4 == 0 { self.serve(g); }
 		d
+	}
+	/// what we SERVE to peers: iterate get_next_channel_announcement / get_next_node_announcement over the whole graph the way
+	/// peer_handler does (start := served + 1 / after the served node). Differential per step (`gc` / `gn`) + MODEL-INDEPENDENT
+	/// oracle: exactly the channels with an announcement message, ascending, each once, with the stored update messages;
+	/// exactly the nodes whose announcement is the signed (Relayed) one.
+	fn serve(&mut self, g: &Graph) {
+		let ctx = self.ctx;
+		let sync = P2PGossipSync::new(g, None::<&Stub>, &LOGGER);
+		let (mut start, mut served) = (0u64, vec![]);
+		loop {
+			match sync.get_next_channel_announcement(start) {
+				Some((ann, u1, u2)) => {
+					let scid = ann.contents.short_channel_id;
+					self.rec.case(&format!("gc {}", start), &format!("{} {} {}", scid, b(u1.is_some()), b(u2.is_some())), "serve:gc:some", true);
+					let ok = { let ro = g.read_only(); ro.channel(scid).map(|c| c.announcement_message.as_ref() == Some(&ann) && c.one_to_two.as_ref().and_then(|d| d.last_update_message.clone()) == u1 && c.two_to_one.as_ref().and_then(|d| d.last_update_message.clone()) == u2).unwrap_or(false) };
+					if !ok || scid < start { self.rec.oracle_fail(format!("get_next_channel_announcement({}) served channel {} which is before the starting point / not stored with these messages; graph: {}", start, scid, ctx.dump(g, false))); }
+					served.push(scid);
+					if served.len() > 64 { self.rec.oracle_fail(format!("get_next_channel_announcement does not terminate; graph: {}", ctx.dump(g, false))); break; }
+					start = scid + 1;
+				},
+				None => { self.rec.case(&format!("gc {}", start), "none", "serve:gc:none", true); break; },
+			}
+		}
+		let expect: Vec<u64> = { let ro = g.read_only(); let mut v: Vec<u64> = ro.channels().unordered_iter().filter(|(_, c)| c.announcement_message.is_some()).map(|(k, _)| *k).collect(); v.sort(); v };
+		if served != expect { self.rec.oracle_fail(format!("serving channel announcements to a peer: served {:?}, the graph holds announcement messages for {:?}; graph: {}", served, expect, ctx.dump(g, false))); }
+		let (mut after, mut served_n): (Option<NodeId>, Vec<u64>) = (None, vec![]);
+		loop {
+			let tok = after.as_ref().map(|i| ctx.rank_of(i).to_string()).unwrap_or("-".into());
+			match sync.get_next_node_announcement(after.as_ref()) {
+				Some(na) => { let id = na.contents.node_id; self.rec.case(&format!("gn {}", tok), &format!("{}", ctx.rank_of(&id)), "serve:gn:some", true); served_n.push(ctx.rank_of(&id)); after = Some(id); if served_n.len() > 64 { break; } },
+				None => { self.rec.case(&format!("gn {}", tok), "none", "serve:gn:none", true); break; },
+			}
+		}
+		let expect_n: Vec<u64> = { let ro = g.read_only(); let mut v: Vec<u64> = ro.nodes().unordered_iter().filter(|(_, n)| n.announcement_info.as_ref().map(|a| a.announcement_message().is_some()).unwrap_or(false)).map(|(k, _)| ctx.rank_of(k)).collect(); v.sort(); v };
+		if served_n != expect_n { self.rec.oracle_fail(format!("serving node announcements to a peer: served {:?}, the graph holds signed node announcements for {:?}; graph: {}", served_n, expect_n, ctx.dump(g, false))); }
 	}
 	/// (iii) the graph survives write/read
 	fn roundtrip(&mut self, g: &Graph, what: &str) {
@@ -713,7 +754,7 @@ fn main() {
 	let (n_sets, n_orders, len_a) = if args.thorough { (15000 * args.scale, 12usize, 90u64) } else { (600 * args.scale, 6usize, 60u64) };
 	let gen = Gen { scids: 6 };
 	let mut stats: HashMap<&'static str, u64> = HashMap::new();
-	let mut r = Runner { ctx: &ctx, rec: &mut rec, last_bad: vec![] };
+	let mut r = Runner { ctx: &ctx, rec: &mut rec, n_dump: 0, last_bad: vec![] };
 
 	// ---- phase S (runs FIRST: it is small, deterministic, and its failing inputs are the most readable): the signature matrix of channel_announcement. Every non-empty subset of the four signatures
 	// forged (15) x the three forgery styles (by an unrelated key / by the holder of the neighbour key / by the right
@@ -775,6 +816,64 @@ fn main() {
 			if !empty { r.rec.oracle_fail(format!("channel_announcement entered the graph although the looked-up UTXO ({}) pays to another script than the 2-of-2 of the announced bitcoin keys; graph: {}", if asynchronous { "answered through a UtxoFuture" } else { "answered synchronously" }, ctx.dump(&g, true))); }
 			r.dump(&g, true);
 		}
+		// relay limit: the REAL signed handlers on messages that carry real excess data around MAX_EXCESS_BYTES_FOR_RELAY.
+		// Differential `rl …` against the translated relay expressions + model-independent consistency oracle: a message
+		// is forwarded to peers iff its signed form is stored (and hence served later by get_next_*).
+		{
+			let sign = |h: &Message, sk: &SecretKey| ctx.secp.sign_ecdsa(h, sk);
+			let mk_ca = |scid: u64, excess: usize| { let mut m = ctx.build_ca(scid, 1, 2, false, true, [true; 4]); m.contents.excess_data = vec![7u8; excess]; let h = msg_hash(&m.contents);
+				m.node_signature_1 = sign(&h, ctx.sk_of(1)); m.node_signature_2 = sign(&h, ctx.sk_of(2)); m.bitcoin_signature_1 = sign(&h, &ctx.btc_sk[0]); m.bitcoin_signature_2 = sign(&h, &ctx.btc_sk[1]); m };
+			let tb = ctx.t0 - 100_000;
+			for &e in &[0usize, 1, 1023, 1024, 1025, 4000] {
+				{
+					let g = new_graph(); let sync = P2PGossipSync::new(&g, None::<&Stub>, &LOGGER);
+					let ans = match sync.handle_channel_announcement(None, &mk_ca(1, e)) { Ok(x) => b(x).to_string(), Err(er) => err_kind(&er) };
+					r.rec.case(&format!("rl ca {}", e), &ans, "S:rl:ca", true);
+					let stored = g.read_only().channel(1).map(|c| c.announcement_message.is_some()).unwrap_or(false);
+					let served = sync.get_next_channel_announcement(0).is_some();
+					if (ans == "1") != stored || stored != served || !(ans == "1" || ans == "0") { r.rec.oracle_fail(format!("channel_announcement with {} bytes of excess data: handle_channel_announcement => {}, signed message stored: {}, served by get_next_channel_announcement: {}", e, ans, stored, served)); }
+				}
+				{
+					let g = new_graph(); let sync = P2PGossipSync::new(&g, None::<&Stub>, &LOGGER);
+					let _ = sync.handle_channel_announcement(None, &mk_ca(1, 0));
+					let mut m = ctx.build_cu(&Op::Cu { scid: 1, dir: false, disabled: false, ts: tb, cltv: 40, min: 1, max: 4000, base: 1, prop: 2, chain_ok: true, dont_fwd: false, verify: true, signer: 1 });
+					m.contents.excess_data = vec![7u8; e]; m.signature = sign(&msg_hash(&m.contents), ctx.sk_of(1));
+					let ans = match sync.handle_channel_update(None, &m) { Ok(x) => b(x.is_some()).to_string(), Err(er) => err_kind(&er) };
+					r.rec.case(&format!("rl cu {}", e), &ans, "S:rl:cu", true);
+					let stored = g.read_only().channel(1).and_then(|c| c.one_to_two.as_ref().map(|d| d.last_update_message.is_some())).unwrap_or(false);
+					let served = sync.get_next_channel_announcement(0).map(|t| t.1.is_some()).unwrap_or(false);
+					if (ans == "1") != stored || stored != served || !(ans == "1" || ans == "0") { r.rec.oracle_fail(format!("channel_update with {} bytes of excess data: handle_channel_update => {}, signed message stored: {}, served: {}", e, ans, stored, served)); }
+				}
+			}
+			for &(e, ea) in &[(0usize, 0usize), (1024, 0), (0, 1024), (512, 512), (512, 513), (513, 512), (1025, 0), (0, 1025), (1024, 1024)] {
+				let g = new_graph(); let sync = P2PGossipSync::new(&g, None::<&Stub>, &LOGGER);
+				let _ = sync.handle_channel_announcement(None, &mk_ca(1, 0));
+				let mut m = ctx.build_na(1, tb, 77, true);
+				m.contents.excess_data = vec![7u8; e]; m.contents.excess_address_data = vec![9u8; ea]; m.signature = sign(&msg_hash(&m.contents), ctx.sk_of(1));
+				let ans = match sync.handle_node_announcement(None, &m) { Ok(x) => b(x).to_string(), Err(er) => err_kind(&er) };
+				r.rec.case(&format!("rl na {} {}", e, ea), &ans, "S:rl:na", true);
+				let served = sync.get_next_node_announcement(None).is_some();
+				if (ans == "1") != served || !(ans == "1" || ans == "0") { r.rec.oracle_fail(format!("node_announcement with {} + {} bytes of excess data: handle_node_announcement => {}, served by get_next_node_announcement: {}", e, ea, ans, served)); }
+			}
+		}
+		// the two-week rule at +-1 second: a direction is dropped iff last_update < now - 14 days, the channel iff a direction is
+		// missing AND announcement_received_time < now - 14 days (remove_stale_channels_and_tracking_with_time). Differential + oracle.
+		for d1 in [-1i64, 0, 1] { for dr in [-1i64, 0, 1] { for both in [false, true] {
+			let base = ctx.t0 - 200_000;
+			let g = new_graph();
+			r.rec.directive("reset");
+			let cu = |dir: bool, ts: u64| Op::Cu { scid: 1, dir, disabled: false, ts, cltv: 40, min: 1, max: 4000, base: 1, prop: 2, chain_ok: true, dont_fwd: false, verify: false, signer: 0 };
+			r.exec(&g, &Op::Cp { scid: 1, cap: None, recv: (base as i64 + dr) as u64, n1: 1, n2: 2 }, "S:");
+			r.exec(&g, &cu(false, (base as i64 + d1) as u64), "S:");
+			r.exec(&g, &cu(true, if both { (base as i64 + d1) as u64 } else { base + 5 }), "S:");
+			r.exec(&g, &Op::Pr { t: base + STALE }, "S:");
+			let (chan, d12, d21) = { let ro = g.read_only(); match ro.channel(1) { Some(c) => (true, c.one_to_two.is_some(), c.two_to_one.is_some()), None => (false, false, false) } };
+			let stale = d1 < 0;
+			let exp_chan = !(stale && dr < 0);
+			let exp = (exp_chan, exp_chan && !stale, exp_chan && !(both && stale));
+			if (chan, d12, d21) != exp { r.rec.oracle_fail(format!("two-week rule at the boundary: updates at minT{:+} (both directions: {}), announcement received at minT{:+}, pruned at minT + 14 days: channel / one_to_two / two_to_one present = {:?}, expected {:?}; graph: {}", d1, both, dr, (chan, d12, d21), exp, ctx.dump(&g, true))); }
+			r.dump(&g, true);
+		} } }
 		stats.insert("signature_matrix_forged_channel_announcements", n_forged);
 		stats.insert("signature_matrix_untampered_channel_announcements", n_valid);
 	}
